@@ -51,6 +51,7 @@ type Contract struct {
 	Trusted  bool
 	Pure     bool
 	Opaque   bool // callers use the contract; body is not checked and not claimed
+	TrustFrame bool // the modifies clause is assumed for the body (e.g. writes through an interface-typed destination)
 	Cases    []string
 	Notes    []string
 	Used     bool
@@ -92,7 +93,7 @@ type Lemma struct {
 var clauseKeywords = map[string]bool{
 	"func": true, "props": true, "safety": true, "requires": true, "ensures": true,
 	"modifies": true, "loop": true, "trusted": true, "pure": true, "opaque": true, "ghost": true,
-	"global": true, "lemma": true, "assumes": true, "import": true, "note": true, "cases": true, "end": true,
+	"global": true, "lemma": true, "assumes": true, "import": true, "note": true, "cases": true, "end": true, "trustframe": true,
 }
 
 var funcKeyRe = regexp.MustCompile(`^(?:\(\s*\*?\s*(\w+)\s*\)\s*\.\s*(\w+)|(\w+)\s*\.\s*(\w+)|(\w+))`)
@@ -281,6 +282,8 @@ func parseSpecFile(path, relDir string) (*PkgSpec, error) {
 				cur.Pure = true
 			case "opaque":
 				cur.Opaque = true
+			case "trustframe":
+				cur.TrustFrame = true
 			case "cases":
 				cur.Cases = append(cur.Cases, it.text)
 			case "note":
@@ -459,7 +462,7 @@ var builtinRename = map[string]string{
 	"mapLen": "gh_mapLen", "allocated": "gh_allocated", "pureOf": "gh_pureOf",
 	"uf": "gh_uf", "ufb": "gh_ufb", "ufr": "gh_ufr", "seqOf": "gh_seqOf", "wrote": "gh_wrote", "div": "gh_div", "mod": "gh_mod",
 	"sameElems": "gh_sameElems", "abs": "gh_abs", "min": "gh_min", "max": "gh_max",
-	"count": "gh_count", "sum": "gh_sum", "upd": "gh_upd", "kvHas": "gh_kvHas", "kvVal": "gh_kvVal", "kvWrites": "gh_kvWrites", "bytesId": "gh_bytesId", "keyOf": "gh_keyOf", "sameRef": "gh_sameRef", "arrOf": "gh_arrOf", "anyOf": "gh_anyOf", "unavail": "gh_unavail", "errIs": "gh_errIs", "mapEq": "gh_mapEq", "emptyMap": "gh_emptyMap",
+	"count": "gh_count", "sum": "gh_sum", "upd": "gh_upd", "kvDomain": "gh_kvDomain", "kvState": "gh_kvState", "kvHas": "gh_kvHas", "kvVal": "gh_kvVal", "kvWrites": "gh_kvWrites", "bytesId": "gh_bytesId", "keyOf": "gh_keyOf", "sameRef": "gh_sameRef", "arrOf": "gh_arrOf", "anyOf": "gh_anyOf", "unavail": "gh_unavail", "errIs": "gh_errIs", "mapEq": "gh_mapEq", "emptyMap": "gh_emptyMap",
 }
 
 var identCallRe = regexp.MustCompile(`\b([A-Za-z_]\w*)\s*\(`)
@@ -485,8 +488,30 @@ func renameBuiltins(s string) string {
 func preludeSrc(pkgName string, ps *PkgSpec) string {
 	var b strings.Builder
 	b.WriteString("//go:build verif\n\npackage " + pkgName + "\n\n")
+	var ghostText strings.Builder
+	for _, g := range ps.Ghosts {
+		ghostText.WriteString(g.Src + "\n")
+	}
+	for _, g := range ps.GhostVars {
+		ghostText.WriteString(g.Src + "\n")
+	}
+	for _, g := range ps.GhostTypes {
+		ghostText.WriteString(g + "\n")
+	}
+	for _, l := range ps.Lemmas {
+		ghostText.WriteString(l.Params + "\n")
+	}
 	for _, imp := range ps.Imports {
-		b.WriteString("import " + imp + "\n")
+		// import only what the ghost declarations mention (clauses are checked in the scope of the real files)
+		f := strings.Fields(imp)
+		path := strings.Trim(f[len(f)-1], "\"")
+		alias := path[strings.LastIndex(path, "/")+1:]
+		if len(f) == 2 {
+			alias = f[0]
+		}
+		if strings.Contains(ghostText.String(), alias+".") {
+			b.WriteString("import " + imp + "\n")
+		}
 	}
 	b.WriteString(`
 func gh_old[T any](x T) T                 { return x }
@@ -512,6 +537,8 @@ func gh_abs(a int) int                    { if a < 0 { return -a }; return a }
 func gh_min(a, b int) int                 { if a < b { return a }; return b }
 func gh_max(a, b int) int                 { if a < b { return b }; return a }
 func gh_wrote() int                       { return 0 }
+func gh_kvDomain() int                    { return 0 }
+func gh_kvState() int                     { return 0 }
 func gh_kvHas(k int) bool                 { return false }
 func gh_kvVal(k int) int                  { return 0 }
 func gh_kvWrites() int                    { return 0 }
